@@ -34,6 +34,11 @@ Proof.
 Qed.
 Print Assumptions C16_bloom_generate_total.
 
+(*    Contains returns (does not divide by zero) on every filter of at most 512 MiB. *)
+Theorem C16_bloom_contains_total : forall f key, (lenN f <= 2 ^ 29)%N -> exists b, bloom_contains bp f key = Some b.
+Proof. exact (bloom_contains_total bp). Qed.
+Print Assumptions C16_bloom_contains_total.
+
 (* 2. bloom_reads_any_k: a filter whose stored k is in the reserved range (> 30) answers true for
       every key; and a generated filter never stores such a k (so generated filters are probed). *)
 Theorem C16_bloom_reads_any_k : forall f key,
@@ -92,9 +97,20 @@ Theorem C16_filter_writer_total : forall P, (forall k, p_add P k <> None) -> (fo
 Proof. exact fw_build_total. Qed.
 Print Assumptions C16_filter_writer_total.
 
-(* 4. policy_change_invisible (enabling, disabling or changing the policy never changes the result of a
-      table lookup) is a statement about Reader.find and is proved over the table model (C13:
-      filter_independent), from the only fact it needs of the filter block, which is theorem 3 above. *)
+(* 4. The step from "no false negative" to "cost, not results", at the level this model has: let
+      [unfiltered o k] be what the lookup in the data block at offset o yields for k without a filter,
+      and assume it only finds keys that were added while that block was open.  Then the lookup that
+      first asks the filter block (Reader.find, filtered) returns exactly the same.
+      policy_change_invisible itself (Get/Has/iteration of a table or DB do not depend on the configured
+      policy, incl. AltFilters and tables of another policy) needs the index/data-block side of
+      Reader.find and is proved over the table model (C13: filter_independent) from this fact. *)
+Theorem C16_filter_changes_no_result : forall P, policy_ok P -> forall lg ops data A (unfiltered : N -> bytes -> option A),
+  flushes_mono ops 0 -> fw_build P lg ops = Some data -> (lenN data < 2 ^ 32)%N ->
+  (forall o k, unfiltered o k <> None -> In (o, k) (tagged ops 0)) ->
+  forall o k, fb_may_contain P data o k <> None ->
+    find_with_filter P data o k (unfiltered o k) = Some (unfiltered o k).
+Proof. intros P ok lg ops data A. exact (fw_filter_changes_no_result P ok lg ops data). Qed.
+Print Assumptions C16_filter_changes_no_result.
 
 (* Non-vacuity: a concrete writer run (3 data blocks, baseLg 4, a flush that skips partitions) whose
    block the reader accepts; the stored keys are reported present, an absent key is rejected, an
